@@ -89,7 +89,9 @@ pub fn run_headers(sim: &Sim, _idx: u64) {
     let streaming = sim.chance(1, 2);
     let in_trailers = sim.chance(1, 2); // status in a trailers block after the body, or trailers-only
     // grpc-status
-    let (status_val, expect_code): (Vec<u8>, Option<Code>) = match sim.weighted(&[5, 2, 2]) {
+    let (status_val, expect_code): (Vec<u8>, Option<Code>) = match sim.weighted(&[5, 2, 2, 2]) {
+        // "0" next to fields that cannot be decoded: the whole status degrades to an error
+        3 => (b"0".to_vec(), Some(Code::Ok)),
         0 => {
             let c = sim.range(1, 16) as i32;
             (c.to_string().into_bytes(), Some(Code::from_i32(c)))
@@ -148,6 +150,18 @@ pub fn run_headers(sim: &Sim, _idx: u64) {
     }
     if msg_expect == Some(None) {
         sim.probe("invalid-utf8-message");
+    }
+    if expect_code == Some(Code::Ok) {
+        // grpc-status 0: judged only when a field next to it is undecodable (invalid UTF-8 after
+        // percent-decoding, invalid base64): "undecodable fields degrade to an error status"
+        let undecodable = msg_expect == Some(None) || !det_valid;
+        if undecodable {
+            sim.probe("status-0-with-undecodable-field");
+            if let Outcome::Ok(n) = out {
+                v4(sim, "undecodable-status-field-read-as-success", format!("grpc-status 0 with grpc-message {:?} / details {:?} (valid base64: {det_valid}): caller sees success ({n} items)", show(&msg_val), show(&det_val)));
+            }
+        }
+        return;
     }
     match out {
         Outcome::Ok(n) => v4(sim, "non-ok-status-read-as-success", format!("peer sent grpc-status {:?}, caller sees success ({n} items)", String::from_utf8_lossy(&status_val))),
